@@ -45,6 +45,16 @@ func (r *Run) fail(prop, sig, detail string, ops []string) {
 	r.fails[key] = &Failure{prop, sig, detail, append([]string{}, ops...)}
 }
 
+func shapeOf(taint string) string {
+	switch {
+	case isReattach(taint):
+		return "argument-already-has-a-parent"
+	case taint == "two-interfaces-of-a-node-receive":
+		return "second-interface-of-the-node"
+	}
+	return "interface-removed-from-its-node"
+}
+
 func dash(s string) string { return strings.ReplaceAll(s, " ", "-") }
 
 func propOf(clause string) string {
@@ -65,8 +75,18 @@ func (r *Run) runHistory(idx int, next func(p *Pool, step int) (Op, bool), onTai
 	prevBroken := map[string]bool{}
 	sawRefusal, sawRekey := false, false
 	h := fnv.New64a()
+	var epilogue []Op // scripted calls after the trigger of the removed-interface finding
 	for step := 0; ; step++ {
-		o, ok := next(p, step)
+		var o Op
+		ok := true
+		if taint != "" {
+			if len(epilogue) == 0 {
+				break
+			}
+			o, epilogue = epilogue[0], epilogue[1:]
+		} else {
+			o, ok = next(p, step)
+		}
 		if !ok {
 			break
 		}
@@ -80,6 +100,7 @@ func (r *Run) runHistory(idx int, next func(p *Pool, step int) (Op, bool), onTai
 			before = snapshot(p)
 			r.fallible++
 		}
+		shared := sharedFollower(p, o)
 		nBefore := len(p.ents)
 		out, bad := exec(p, o)
 		if bad != nil {
@@ -91,8 +112,15 @@ func (r *Run) runHistory(idx int, next func(p *Pool, step int) (Op, bool), onTai
 		h.Write([]byte(o.String() + ";"))
 		st := site(o)
 		failOn := func(prop, sig, detail string) {
-			if taint != "" {
-				sig = prop + "-after-" + dash(taint)
+			if tn != "" && out.Err == nil && !out.Panicked && !strings.HasPrefix(sig, "c06-panic") && !strings.HasPrefix(sig, "c06-error-mutates") {
+				// the failing call is itself an instance of an open finding: the signature names the
+				// clause, the call site and the shape of the argument
+				sig += "+" + shapeOf(tn)
+			} else if taint == "removed-interface-used" && !strings.HasPrefix(sig, "c06-panic") && !strings.HasPrefix(sig, "c06-error-mutates") {
+				sig += "+" + shapeOf(taint) // the scripted rename after a removed interface was attached
+			} else if shared && (strings.HasPrefix(sig, "c06-panic@") || strings.HasPrefix(sig, "c06-layout-invalid@")) {
+				// size change of a multiplexed signal whose follower is shared by several groups
+				sig += "+follower-shared-by-groups"
 			}
 			r.fail(prop, sig, detail, done)
 		}
@@ -103,10 +131,9 @@ func (r *Run) runHistory(idx int, next func(p *Pool, step int) (Op, bool), onTai
 			if f, okf := fitsOracle(o, ""); okf {
 				line += " " + strconv.FormatInt(f, 10)
 			}
-			r.emitOp(o, line)
-			if modelled(o.Name) {
-				fmt.Fprintf(r.trace, "R panic\n")
-			}
+			// the panic is reported as a property failure of its own (c06-panic@…); the history ends
+			// here and the model is not compared on this call
+			fmt.Fprintf(r.trace, "# panic in %s\n", line)
 			failOn("c06", "c06-panic@"+st, fmt.Sprintf("%s panicked: %s", st, trunc(out.PanicMsg, 200)))
 			r.hist[o.Name+".panic"]++
 			if r.verbose {
@@ -131,6 +158,13 @@ func (r *Run) runHistory(idx int, next func(p *Pool, step int) (Op, bool), onTai
 			r.tainted++
 			if onTaint != nil {
 				onTaint(tn)
+			}
+			if tn == "removed-interface-used" && o.Name == "BusAddNodeInterface" {
+				// the consequence for the name / id indexes shows when the node is renamed
+				if ni := p.iface(o.A[1]); ni != nil {
+					nd := int64(p.byID[ni.Node().EntityID()])
+					epilogue = []Op{{Name: "NodeUpdateName", A: []int64{nd, 5}}, {Name: "NodeUpdateID", A: []int64{nd, 3}}}
+				}
 			}
 		}
 		if fall {
@@ -198,6 +232,9 @@ func (r *Run) runHistory(idx int, next func(p *Pool, step int) (Op, bool), onTai
 			}
 		}
 		prevBroken = nowBroken
+		// once a call fell under an open finding (re-attach, second receiving interface of a node,
+		// removed interface used) its immediate symptom has been evaluated under the clause's own
+		// signature; nothing else is attributed to it: the history ends (top of the loop)
 	}
 	if len(kinds) >= 3 && sawRefusal && sawRekey {
 		r.nontriv[h.Sum64()] = true
@@ -282,7 +319,12 @@ func main() {
 		nHist = envInt("VERIF_HISTORIES", nHist)
 		nSteps = envInt("VERIF_STEPS", nSteps)
 		for hI := 0; hI < nHist; hI++ {
-			g := &Gen{r: &RNG{s: seed*0x9E3779B97F4A7C15 + uint64(hI)*0xD1B54A32D192ED03 + 1}, allowReattach: hI%4 == 3, allowTwoIface: hI%5 == 4, invalidPct: 96, buildSteps: 10}
+			g := &Gen{r: &RNG{s: seed*0x9E3779B97F4A7C15 + uint64(hI)*0xD1B54A32D192ED03 + 1}, invalidPct: 96, buildSteps: 10}
+			if hI%5 == 4 {
+				// the open-finding stream: one designated trigger per history, late in the history
+				g.taintWant = taintKinds[(hI/5)%len(taintKinds)]
+				g.taintFrom = 15 + g.r.below(55)
+			}
 			pre := g.prefix()
 			var queue, pending []Op
 			queued := false
